@@ -331,6 +331,9 @@ def run(ctx):
                          "tubes": [list(t["temp"].shape) for t in c["tubes"]], "real": r.get("life", r["status"]),
                          "model": m.get("life", m["status"])})
     ctx.extra["regimes"] = regimes
+    ctx.notes.append("regime 'outside after one cycle' is reached with cycle periods of 1e8-3e8 h at 60-80 MPa "
+                     "components and temperatures just below the lowest last fatigue-curve temperature; the code "
+                     "attaches no physical range to the period")
     ctx.extra["integer_jump_ties_accepted"] = jumps
     ctx.notes.append("last-cycle mode: %d case(s) differed by one whole cycle at a confirmed rounding tie" % jumps)
     ctx.obligation("correspondence: creep_damage, fatigue_damage, id_cycles, single_cycles, determine_life == model "
